@@ -145,7 +145,11 @@ HelperGApply(h, a, x) ==
                           THEN (IF Len(a) = 2 THEN FoldL(a[1].f, a[2], x.l, 1)
                                 ELSE IF Len(x.l) = 0 THEN IllTyped ELSE FoldL(a[1].f, x.l[1], x.l, 2))
                           ELSE IllTyped
-      [] h = "into"    -> IF x.t \in {"l", "u"} /\ a[1].t = "F" THEN FnApply(a[1].f, x.l) ELSE IllTyped
+      [] h = "into"    -> IF x.t \in {"l", "u"} /\ a[1].t = "F" THEN FnApply(a[1].f, x.l)       \* f(*sequence)
+                          \* f(**mapping): for any Mapping, not only dict (h2's parameters are named a and b)
+                          ELSE IF x.t = "d" /\ a[1].t = "F" /\ a[1].f = "h2" /\ DOMAIN x.d = {"a", "b"}
+                               THEN FnApply("h2", <<x.d["a"], x.d["b"]>>)
+                          ELSE IllTyped
       [] h = "flatten" -> IF x.t = "l" /\ \A i \in 1 .. Len(x.l) : x.l[i].t = "l"
                           THEN Ok(Lv(Cat([i \in 1 .. Len(x.l) |-> x.l[i].l]))) ELSE IllTyped
       [] h = "flatmap" -> IF x.t = "l" /\ a[1].t = "F"
